@@ -1,0 +1,179 @@
+//go:build verif
+
+package main
+
+import (
+	"sort"
+
+	auto "github.com/moorara/algo/automata"
+
+	"github.com/gardenbed/emerge/internal/ebnf/parser/spec"
+	regexast "github.com/gardenbed/emerge/internal/regex/parser/ast"
+	"github.com/gardenbed/emerge/internal/regex/parser/nfa"
+)
+
+func init() {
+	register("regex", opRegex)
+	register("dfa_accept", opDFAAccept)
+	register("regex_parse", opRegexParse)
+}
+
+// opRegexParse only reports whether each entry point accepts the pattern (no automata are built from the result).
+func opRegexParse(req request) response {
+	pattern := str(req, "pattern")
+	res := response{"outcome": "ok"}
+	res["nfa"] = capture(func() map[string]any {
+		n, err := nfa.Parse(pattern)
+		if err != nil {
+			return map[string]any{"outcome": "error", "error": err.Error()}
+		}
+		return map[string]any{"outcome": "ok", "nil": n == nil}
+	})
+	res["ast"] = capture(func() map[string]any {
+		a, err := regexast.Parse(pattern)
+		if err != nil {
+			return map[string]any{"outcome": "error", "error": err.Error()}
+		}
+		return map[string]any{"outcome": "ok", "nil": a == nil}
+	})
+	return res
+}
+
+// dumpDFA renders a DFA canonically: start, sorted finals, transitions compressed to [from, lo, hi, to].
+func dumpDFA(d *auto.DFA) map[string]any {
+	finals := []int{}
+	for s := range d.Final.All() {
+		finals = append(finals, int(s))
+	}
+	sort.Ints(finals)
+
+	type key struct{ from, to int }
+	by := map[key][]int{}
+	n := 0
+	for tr := range d.Transitions() {
+		k := key{int(tr.State), int(tr.Next)}
+		by[k] = append(by[k], int(tr.Symbol))
+		n++
+	}
+	trans := [][4]int{}
+	for k, syms := range by {
+		sort.Ints(syms)
+		for i := 0; i < len(syms); {
+			j := i
+			for j+1 < len(syms) && syms[j+1] == syms[j]+1 {
+				j++
+			}
+			trans = append(trans, [4]int{k.from, syms[i], syms[j], k.to})
+			i = j + 1
+		}
+	}
+	sort.Slice(trans, func(i, j int) bool {
+		for x := 0; x < 4; x++ {
+			if trans[i][x] != trans[j][x] {
+				return trans[i][x] < trans[j][x]
+			}
+		}
+		return false
+	})
+	return map[string]any{"start": int(d.Start), "finals": finals, "trans": trans, "ntrans": n, "nstates": len(d.States())}
+}
+
+func capture(f func() map[string]any) (res map[string]any) {
+	defer func() {
+		if r := recover(); r != nil {
+			res = map[string]any{"outcome": "panic", "panic": toStr(r)}
+		}
+	}()
+	return f()
+}
+
+func toStr(v any) string {
+	if e, ok := v.(error); ok {
+		return e.Error()
+	}
+	if s, ok := v.(string); ok {
+		return s
+	}
+	return "panic"
+}
+
+// opRegex runs both pattern routes on one pattern and dumps every stage.
+func opRegex(req request) response {
+	pattern := str(req, "pattern")
+	res := response{"outcome": "ok"}
+
+	res["nfa"] = capture(func() map[string]any {
+		n, err := nfa.Parse(pattern)
+		if err != nil {
+			return map[string]any{"outcome": "error", "error": err.Error()}
+		}
+		out := map[string]any{"outcome": "ok"}
+		d1 := n.ToDFA()
+		out["dfa"] = dumpDFA(d1)
+		d2 := d1.Minimize()
+		out["min"] = dumpDFA(d2)
+		d3 := d2.EliminateDeadStates()
+		out["pruned"] = dumpDFA(d3)
+		d4 := d3.ReindexStates()
+		out["reindexed"] = dumpDFA(d4)
+		return out
+	})
+
+	res["pipeline"] = capture(func() map[string]any {
+		d, err := spec.VerifRegexToDFA(pattern)
+		if err != nil {
+			return map[string]any{"outcome": "error", "error": err.Error()}
+		}
+		return map[string]any{"outcome": "ok", "dfa": dumpDFA(d)}
+	})
+
+	res["ast"] = capture(func() map[string]any {
+		a, err := regexast.Parse(pattern)
+		if err != nil {
+			return map[string]any{"outcome": "error", "error": err.Error()}
+		}
+		return map[string]any{"outcome": "ok", "dfa": dumpDFA(a.ToDFA())}
+	})
+
+	return res
+}
+
+// opDFAAccept replays strings (as code point lists) through the real automata of both routes.
+func opDFAAccept(req request) response {
+	pattern := str(req, "pattern")
+	words, _ := req["words"].([]any)
+	res := response{"outcome": "ok"}
+	toString := func(w any) auto.String {
+		cps, _ := w.([]any)
+		s := make(auto.String, len(cps))
+		for i, c := range cps {
+			f, _ := c.(float64)
+			s[i] = auto.Symbol(rune(int(f)))
+		}
+		return s
+	}
+	res["pipeline"] = capture(func() map[string]any {
+		d, err := spec.VerifRegexToDFA(pattern)
+		if err != nil {
+			return map[string]any{"outcome": "error", "error": err.Error()}
+		}
+		acc := []bool{}
+		for _, w := range words {
+			acc = append(acc, d.Accept(toString(w)))
+		}
+		return map[string]any{"outcome": "ok", "accept": acc}
+	})
+	res["ast"] = capture(func() map[string]any {
+		a, err := regexast.Parse(pattern)
+		if err != nil {
+			return map[string]any{"outcome": "error", "error": err.Error()}
+		}
+		d := a.ToDFA()
+		acc := []bool{}
+		for _, w := range words {
+			acc = append(acc, d.Accept(toString(w)))
+		}
+		return map[string]any{"outcome": "ok", "accept": acc}
+	})
+	return res
+}
